@@ -11,6 +11,7 @@
 package main
 
 import (
+	"context"
 	"errors"
 	"fmt"
 	"strings"
@@ -19,6 +20,7 @@ import (
 	"github.com/thushan/olla/internal/adapter/health"
 	"github.com/thushan/olla/internal/adapter/proxy/olla"
 	"github.com/thushan/olla/internal/adapter/unifier"
+	"github.com/thushan/olla/internal/core/domain"
 	"github.com/thushan/olla/internal/verif/h/lib/explore"
 	"github.com/thushan/olla/internal/verif/h/lib/hutil"
 	"github.com/thushan/olla/internal/verif/h/lib/report"
@@ -67,6 +69,28 @@ func (b managerB) Ask() bool { return b.m.GetCircuitBreaker(murl).Allow() }
 func (b managerB) Fail()     { b.m.RecordFailure(murl, errors.New("unification failed")) }
 func (b managerB) Succ()     { b.m.RecordSuccess(murl) }
 
+// lifecycleB drives the unifier breaker through the component that production code calls: LifecycleUnifier.
+// A unification is asked for, admitted or refused, and - the wrapped unifier never fails on a listing - succeeds,
+// with models or with none (an endpoint that has nothing loaded); failures arrive as RecordEndpointFailure after
+// a failed registration.
+type lifecycleB struct {
+	u     *unifier.LifecycleUnifier
+	ep    *domain.Endpoint
+	empty bool
+}
+
+func (b *lifecycleB) Prepare(kind string) { b.empty = kind == "ASe" }
+func (b *lifecycleB) Ask() bool {
+	var models []*domain.ModelInfo
+	if !b.empty {
+		models = []*domain.ModelInfo{{Name: "m1", LastSeen: time.Now()}}
+	}
+	_, err := b.u.UnifyModels(context.Background(), models, b.ep)
+	return err == nil
+}
+func (b *lifecycleB) Fail() { b.u.RecordEndpointFailure(b.ep.URLString, errors.New("registration failed")) }
+func (b *lifecycleB) Succ() {} // reported by UnifyModels itself
+
 type params struct {
 	Name   string
 	T      int           // failure threshold
@@ -77,6 +101,7 @@ type params struct {
 	Assert bool
 	mk     func() brk
 	steps  []time.Duration // time steps of the alphabet
+	kinds  []string        // event kinds of the alphabet (default: AF AS A F S)
 }
 
 func allParams() []params {
@@ -95,6 +120,15 @@ func allParams() []params {
 			return managerB{unifier.NewEndpointManager(cfg, hutil.QuietLogger())}
 		}
 	}
+	mkL := func(c unifier.CircuitBreakerConfig) func() brk {
+		return func() brk {
+			cfg := unifier.DefaultConfig()
+			cfg.EnableBackgroundCleanup = false
+			cfg.CircuitBreaker = c
+			u := unifier.NewLifecycleUnifier(cfg, hutil.QuietLogger()).(*unifier.LifecycleUnifier)
+			return &lifecycleB{u: u, ep: &domain.Endpoint{Name: "lc", URLString: "http://10.0.0.8:11434"}}
+		}
+	}
 	return []params{
 		{Name: "health", T: health.DefaultCircuitBreakerThreshold, D: health.DefaultCircuitBreakerTimeout, Policy: "health", Assert: true,
 			mk: func() brk { return healthB{health.NewCircuitBreaker()} }, steps: []time.Duration{500 * time.Millisecond, 1500 * time.Millisecond, 31 * time.Second}},
@@ -111,6 +145,11 @@ func allParams() []params {
 			mk: mkM(def), steps: []time.Duration{time.Second, 61 * time.Second}},
 		{Name: "unifier-manager-2-2-1s-3", T: 2, D: time.Second, Policy: "unifier", H: 3, ST: 2, Assert: true,
 			mk: mkM(ucfg(2, 2, time.Second, 3)), steps: []time.Duration{300 * time.Millisecond, 1100 * time.Millisecond}},
+		// ... and through the LifecycleUnifier that production code calls (asks and successes are one call there)
+		{Name: "unifier-lifecycle-2-2-1s-3", T: 2, D: time.Second, Policy: "unifier", H: 3, ST: 2, Assert: true, kinds: []string{"AS", "ASe", "F!"},
+			mk: mkL(ucfg(2, 2, time.Second, 3)), steps: []time.Duration{300 * time.Millisecond, 1100 * time.Millisecond}},
+		{Name: "unifier-lifecycle-default", T: def.FailureThreshold, D: def.OpenDuration, Policy: "unifier", H: def.HalfOpenRequests, ST: def.SuccessThreshold, Assert: true, kinds: []string{"AS", "ASe", "F!"},
+			mk: mkL(def), steps: []time.Duration{time.Second, 61 * time.Second}},
 		// success threshold above the half-open quota: olla never ships it; explored and reported only
 		{Name: "unifier-2-3-1s-2", T: 2, D: time.Second, Policy: "unifier", H: 2, ST: 3, Assert: false,
 			mk: mkU(ucfg(2, 3, time.Second, 2)), steps: []time.Duration{300 * time.Millisecond, 1100 * time.Millisecond}},
@@ -338,7 +377,10 @@ func (r *runner) step(e event) *fail {
 	case "T":
 		vclock.Advance(e.d)
 		return nil
-	case "A", "AF", "AS":
+	case "A", "AF", "AS", "ASe":
+		if pb, ok := r.b.(interface{ Prepare(string) }); ok {
+			pb.Prepare(e.kind)
+		}
 		got, f := r.ask()
 		if f != nil {
 			return f
@@ -347,9 +389,11 @@ func (r *runner) step(e event) *fail {
 			if e.kind == "A" {
 				r.pending = append(r.pending, r.idx)
 			} else {
-				r.outcome(r.idx, e.kind == "AS")
+				r.outcome(r.idx, e.kind != "AF")
 			}
 		}
+	case "F!": // a failure reported for the endpoint without a call having been admitted (a failed discovery)
+		r.outcome(r.idx, false)
 	case "F", "S":
 		at := r.pending[0]
 		r.pending = r.pending[1:]
@@ -406,6 +450,12 @@ func (r *runner) liveness() *fail {
 
 func alphabet(p params) []event {
 	a := []event{{kind: "AF"}, {kind: "AS"}, {kind: "A"}, {kind: "F"}, {kind: "S"}}
+	if len(p.kinds) > 0 {
+		a = nil
+		for _, k := range p.kinds {
+			a = append(a, event{kind: k})
+		}
+	}
 	for _, d := range p.steps {
 		a = append(a, event{"T", d})
 	}
